@@ -11,15 +11,18 @@ echo "$(wc -l < "$TMP/jobs") survivors to re-check" >&2
 one() {
   line="$1"; TMP="$2"
   IFS=$'\t' read -r f idx kind ln fn desc b t fired rules <<< "$line"
-  D=$(mktemp -d "$TMP/w.XXXXXX"); rsync -a --exclude .git /repo/ "$D/repo/"
+  SLOTS=/tmp/dcpverif-scratch; mkdir -p "$SLOTS"; k=0
+  while ! mkdir "$SLOTS/rlock.$k" 2>/dev/null; do k=$(( (k+1) % 32 )); [ $k -eq 0 ] && sleep 0.2; done
+  D="$SLOTS/r$k"; rm -rf "$D"; mkdir -p "$D"; rsync -a --exclude .git /repo/ "$D/repo/"; case "$D" in /tmp/*) [ -f "$D/repo/go.mod" ] || { echo "scratch copy failed: $D" >&2; exit 9; };; *) echo "refusing to work outside /tmp: [$D]" >&2; exit 9;; esac
   "$TMP/mutgen" -file /repo/$f -apply $idx -out "$D/repo/$f"
   out=$("$TMP/dcpverif" -prop all -repo "$D/repo" -out /verif -no-evidence 2>&1)
   [ "$(echo "$out" | grep -c " obligations, ")" -eq 20 ] || b=checker-error
   fired=$(echo "$out" | grep -oE "^VIOLATION property=C[0-9]+" | sed 's/VIOLATION property=//' | tr '\n' ' ')
   rules=$(echo "$out" | grep -E "^\s+\[(violated|undecided)\]" | sed -E 's/^\s+\[(violated|undecided)\] ([^|]+)\|.*/\2/' | sort -u | tr '\n' ' ')
   printf '%s\t%s\t%s\t%s\t%s\t%s\t%s\t%s\t%s\t%s\n' "$f" "$idx" "$kind" "$ln" "$fn" "$desc" "$b" "$t" "$fired" "$rules"
-  rm -rf "$D"
+  rm -rf "$D"; rmdir "$SLOTS/rlock.$k"
 }
+rm -rf /tmp/dcpverif-scratch/rlock.* 2>/dev/null
 export -f one
 cat "$TMP/jobs" | tr '\n' '\0' | xargs -0 -P "$W" -I{} bash -c 'one "$@"' _ {} "$TMP" > "$TMP/re"
 cat "$TMP/keep" "$TMP/re" | sort -t$'\t' -k1,1 -k2,2n > "$OUT"
